@@ -251,7 +251,7 @@ class Ctx:
         with open(trace) as f:
             for line in f:
                 e = json.loads(line)
-                if e.get("ev") in ("reset",):
+                if e.get("ev") in ("reset", "teardown", "flags", "flag"):
                     continue
                 self.evaluations += 1
                 if nontrivial(e):
